@@ -29,6 +29,12 @@ check("C03", "model_checking",
       "decoder thread paced deterministically through the verif-hooks gate; natural end may be reported up to 4 source frames late; transitions the statement leaves open (e.g. resume during Stopping) follow the documented command semantics; whether a seek issued within the resampler look-ahead of the end still takes effect is left to C04.",
       "DESIGN.md §3 C03")
 
+check("C04", "model_checking",
+      "exhaustive configuration-lattice enumeration of the real StaticSound against an ideal transport + 4-point Hermite reference; command positions enumerated exhaustively",
+      "Every static sound of length 0..8 (10 thorough) x every slice x every start position x every valid loop region x reverse x 7 playback rates (positive and negative) x 4 device/sound rate pairs x 4 chunk sizes is rendered on the real code and compared frame by frame with the reference (bit-exact on integer steps, 2e-6 otherwise; index-coded frames, poison outside the slice), including end-of-sound timing, reported position, no latency; seek_to / seek_by / set_loop_region are issued at every callback index 0..6 (ordered pairs in thorough) and judged by the landing / shift / new-loop laws.",
+      "continuous rate values are represented by the 7-point lattice; regions with end <= start or outside the data are C01's subject; a start position at/after the end is only required not to panic or read outside the slice.",
+      "DESIGN.md §3 C04")
+
 NOT_YET = {}
 
 def main():
